@@ -1,13 +1,13 @@
 import RgVerif.Model.WalkFs
 /-
-C06: concrete inputs used by `C06_full_fails` (finding F15) and by the non-vacuity example.
+C06: concrete inputs used by `C06_full_fails` (finding F25) and by the non-vacuity example.
 -/
 namespace RgVerif.Walk
 
-def f15Forest : List Node :=
+def f25Forest : List Node :=
   [.dir 1 1 1 [] [.dir 2 2 2 [] [], .file 3 0]]
 
-def f15Cfg : Cfg :=
+def f25Cfg : Cfg :=
   { maxDepth := none, maxFilesize := none, followLinks := false, sameFs := true,
     ignored := fun _ _ _ => false,
     filter := some fun p _ => p.getLast? != some 2 }
